@@ -1,6 +1,18 @@
 (* C29 driver: replays the Go trace on the extracted references.
-   hash cases: the model of each helper is the reference digest, so prop_ok = model_eq =
-   "every digest the Go helper returned equals the reference digest". *)
+
+   hash cases       the model of each helper is the reference digest: prop_ok = model_eq =
+                    "every digest the Go helper returned equals the reference digest".
+   ed cases         model_eq: gossamer's verdict (ok/fail/err) equals the model of
+                    VerifySignature over Go's crypto/ed25519 rules; prop_ok: the verdict accepts
+                    exactly when the ZIP-215 reference accepts; a disagreement inside
+                    [zip215_guard] (non-canonical R, or torsion in A or R) is the known finding
+                    ed25519-not-zip215.
+   secp cases       the model is libsecp256k1's rule set behind gossamer's wrappers, which is
+                    also the reference: prop_ok = model_eq.
+
+   The signature references cost about a second per case (256-bit arithmetic on Coq's binary
+   integers), so the cases are distributed over worker processes (this executable re-invoked
+   with --worker through the shell; stdlib only). *)
 open Model
 open Vutil
 
@@ -11,27 +23,137 @@ let len_bucket n =
   else if n < 128 then "len-64..127" else if n <= 137 then "len-128..137"
   else if n <= 256 then "len-138..256" else "len->256"
 
+let hexlen hx = if hx = "-" then 0 else String.length hx / 2
+
+let simple ~tags ~model ~obs =
+  let e = (model = obs) in
+  { prop_ok = e; model_eq = e; nontrivial = true; finding = "-"; tags;
+    detail = if e then "" else "reference=" ^ model }
+
+let rec_string = function RKey k -> hex_of_bytes k | RErr -> "err" | RPanic -> "panic"
+
 let check inp obs =
   match split_ws inp with
-  | ["hash"; hx] ->
+  | ["hash"; hx] | ["hhash"; hx] ->
+    let kind = List.hd (split_ws inp) in
     let m = bytes_of_hex hx in
     let model = List.map hex_of_bytes (all_digests m) in
+    let model = if kind = "hhash" then List.filter (fun x -> x <> "") (List.mapi (fun i x -> if i = 2 then "" else x) model) else model in
+    let names = if kind = "hhash" then List.filter (fun x -> x <> "blake2b8") digest_names else digest_names in
     let o = split_ws obs in
-    if List.length o <> 8 then
-      { prop_ok = false; model_eq = false; nontrivial = false; finding = "-"; tags = "hash-shape";
-        detail = "expected 8 digests, observed: " ^ obs }
+    if List.length o <> List.length model then
+      { prop_ok = false; model_eq = false; nontrivial = false; finding = "-"; tags = kind ^ "-shape";
+        detail = "unexpected observation: " ^ obs }
     else begin
       let bad = List.filter_map (fun (nm, (a, b)) -> if a = b then None else Some (nm ^ ":ref=" ^ a ^ ",go=" ^ b))
-          (List.combine digest_names (List.combine model o)) in
-      let n = String.length hx / 2 in
-      let n = if hx = "-" then 0 else n in
+          (List.combine names (List.combine model o)) in
+      let n = hexlen hx in
       let okk = (bad = []) in
       { prop_ok = okk; model_eq = okk; nontrivial = true; finding = "-";
-        tags = "hash," ^ len_bucket n ^ (if n mod 136 = 135 then ",keccak-pad-81" else "")
+        tags = kind ^ "," ^ kind ^ "-" ^ len_bucket n ^ (if n mod 136 = 135 then ",keccak-pad-81" else "")
                ^ (if n mod 128 = 0 && n > 0 then ",blake-full-last-block" else "")
                ^ (if n mod 64 >= 56 then ",sha-pad-extra-block" else "");
         detail = String.concat ";" bad }
     end
+  | ["ed"; pkh; msgh; sigh] ->
+    let pk = bytes_of_hex pkh and msg = bytes_of_hex msgh and sg = bytes_of_hex sigh in
+    let (g, z) = ed25519_case pk sg msg in
+    let model = (match g with VOk -> "ok" | VFail -> "fail" | VErr -> "err") in
+    let accepted = (obs = "ok") in
+    let prop = (accepted = z) in
+    let finding = if (not prop) && zip215_guard pk sg then "ed25519-not-zip215" else "-" in
+    let shape =
+      if hexlen pkh <> 32 || hexlen sigh <> 64 then "ed-bad-length"
+      else if (match pt_decode pk with None -> true | Some _ -> false) then "ed-A-undecodable"
+      else if (match pt_decode (List.filteri (fun i _ -> i < 32) sg) with None -> true | Some _ -> false) then "ed-R-undecodable"
+      else "ed-wellformed" in
+    { prop_ok = prop; model_eq = (model = obs); nontrivial = true; finding;
+      tags = "ed," ^ shape ^ ",ed-go-" ^ model ^ (if z then ",ed-zip215-accept" else ",ed-zip215-reject")
+             ^ (if (g = VOk) <> z then ",ed-go-differs-from-zip215" else "");
+      detail = if prop && model = obs then "" else
+          Printf.sprintf "gossamer=%s model-of-go=%s zip215=%s" obs model (if z then "accept" else "reject") }
+  | ["sverify"; pkh; msgh; sigh] ->
+    let m = if secp256k1_verify_signature (bytes_of_hex pkh) (bytes_of_hex sigh) (bytes_of_hex msgh) then "ok" else "fail" in
+    simple ~tags:("secp,sverify-" ^ m ^ ",sverify-pklen-" ^ string_of_int (hexlen pkh)) ~model:m ~obs
+  | ["spkverify"; pkh; msgh; sigh] ->
+    let m = (match secp256k1_pubkey_verify (bytes_of_hex pkh) (bytes_of_hex msgh) (bytes_of_hex sigh) with
+        | PKBadKey -> "badkey" | PKErr -> "err" | PKFail -> "fail" | PKOk -> "ok") in
+    simple ~tags:("secp,spkverify-" ^ m) ~model:m ~obs
+  | ["srecover"; msgh; sigh] ->
+    let r = recover_public_key (bytes_of_hex msgh) (bytes_of_hex sigh) in
+    let m = rec_string r in
+    let v = simple ~tags:("secp,srecover-" ^ (match r with RKey _ -> "key" | _ -> m) ^
+                          (if hexlen sigh <> 65 then ",srecover-bad-length" else "")) ~model:m ~obs in
+    if (not v.prop_ok) && obs = "panic" && hexlen sigh < 65 then
+      { v with detail = "RecoverPublicKey panics on a signature shorter than 65 bytes; " ^ v.detail } else v
+  | ["srecoverc"; msgh; sigh] ->
+    let r = recover_public_key_compressed (bytes_of_hex msgh) (bytes_of_hex sigh) in
+    let m = rec_string r in
+    let v = simple ~tags:("secp,srecoverc-" ^ (match r with RKey _ -> "key" | _ -> m) ^
+                          (if hexlen sigh <> 65 then ",srecover-bad-length" else "")) ~model:m ~obs in
+    if (not v.prop_ok) && obs = "panic" && hexlen sigh < 65 then
+      { v with detail = "RecoverPublicKeyCompressed panics on a signature shorter than 65 bytes; " ^ v.detail } else v
   | _ -> fail "C29: bad input %s" inp
 
-let () = run_driver check
+(* ---- parallel front end *)
+let read_lines ic =
+  let l = ref [] in
+  (try while true do l := input_line ic :: !l done with End_of_file -> ());
+  List.rev !l
+
+let cost line =
+  match String.split_on_char '\t' line with
+  | [_; inp; _] -> if String.length inp > 2 && (inp.[0] = 'e' || inp.[0] = 's') then 60 else 1
+  | _ -> 1
+
+let () =
+  if Array.length Sys.argv > 1 && Sys.argv.(1) = "--worker" then run_driver check
+  else begin
+    let lines = List.filter (fun l -> l <> "") (read_lines stdin) in
+    let total = List.fold_left (fun a l -> a + cost l) 0 lines in
+    let want = (try int_of_string (Sys.getenv "VERIF_WORKERS") with _ -> 6) in
+    let k = max 1 (min want (total / 40)) in
+    if k = 1 then begin
+      (* small job: in-process *)
+      let tmp = Filename.temp_file "c29-" ".in" in
+      let oc = open_out tmp in List.iter (fun l -> output_string oc l; output_char oc '\n') lines; close_out oc;
+      let rc = Sys.command (Printf.sprintf "%s --worker < %s" (Filename.quote Sys.executable_name) (Filename.quote tmp)) in
+      Sys.remove tmp; exit rc
+    end else begin
+      (* greedy balancing by estimated cost, heaviest first *)
+      let loads = Array.make k 0 and parts = Array.make k [] in
+      let sorted = List.stable_sort (fun a b -> compare (cost b) (cost a)) lines in
+      List.iter (fun l ->
+          let j = ref 0 in
+          Array.iteri (fun i v -> if v < loads.(!j) then j := i) loads;
+          loads.(!j) <- loads.(!j) + cost l; parts.(!j) <- l :: parts.(!j)) sorted;
+      let ins = Array.init k (fun _ -> Filename.temp_file "c29-" ".in") in
+      let outs = Array.init k (fun _ -> Filename.temp_file "c29-" ".out") in
+      Array.iteri (fun i f ->
+          let oc = open_out f in
+          List.iter (fun l -> output_string oc l; output_char oc '\n') (List.rev parts.(i)); close_out oc) ins;
+      let cmds = Array.to_list (Array.mapi (fun i f ->
+          Printf.sprintf "( %s --worker < %s > %s || echo FAILED >> %s ) &" (Filename.quote Sys.executable_name)
+            (Filename.quote f) (Filename.quote outs.(i)) (Filename.quote outs.(i))) ins) in
+      let rc = Sys.command (String.concat " " cmds ^ " wait") in
+      let results = Hashtbl.create 1024 in
+      let failed = ref (rc <> 0) in
+      Array.iter (fun f ->
+          let ic = open_in f in
+          List.iter (fun l ->
+              if l = "FAILED" then failed := true else
+              match String.split_on_char '\t' l with
+              | "R" :: id :: _ -> Hashtbl.replace results id l
+              | _ -> ()) (read_lines ic);
+          close_in ic) outs;
+      Array.iter Sys.remove ins; Array.iter Sys.remove outs;
+      if !failed then (prerr_endline "driver: a worker failed"; exit 2);
+      List.iter (fun l ->
+          match String.split_on_char '\t' l with
+          | id :: _ -> (match Hashtbl.find_opt results id with
+              | Some r -> print_string r; print_char '\n'
+              | None -> ())
+          | _ -> ()) lines;
+      flush stdout
+    end
+  end
